@@ -151,7 +151,7 @@ def h_with_suffix(ctx, base_sk, sfx_sk):
 
 BASES = [
     ("abs", ["http://h/a/b.c?q#f"]), ("abs-nopath", ["http://h"]), ("abs-root", ["http://h/"]), ("abs-dir", ["http://h/a/"]),
-    ("abs-empty-seg", ["http://h/a//b"]), ("rooted", ["/a/b"]), ("rootless", ["a/b"]), ("empty", [""]), ("rel-dir", ["a/"]),
+    ("abs-empty-seg", ["http://h/a//b"]), ("abs-leading-empty", ["http://h//a/b"]), ("rooted", ["/a/b"]), ("rootless", ["a/b"]), ("empty", [""]), ("rel-dir", ["a/"]),
     ("escaped", ["http://h/a%2", HEX, "b/c%", HEX, HEX, ".t%20x"]), ("hole", ["http://h/a/", NS, "/b"]), ("nonascii", ["http://h/μ/ν.ξ"]),
 ]
 
